@@ -167,6 +167,16 @@ def main(prop):
         from checks import c11 as _c11
 
         _c11.scan_variants_probe(run, key="genuine_address/SCAN")
+        # wrapped raw bytes (a byte-continuation line) under a rule that sets an address range: every reported address is the
+        # address of an instruction, never that of the continuation line
+        lw = "    401000:\t48 b8 88 77 66 55 44 \tmovabs $0x1122334455667788,%rax\n    401007:\t33 22 11 \n    40100a:\t48 89 c3             \tmov    %rax,%rbx\n    40100d:\tc3                   \tret\n"
+        for doc, want in (({"config": {"valid_addr_range": {"min": "0x1", "max": "0x2"}}, "pattern": [{"$not": ["movabs"]}]}, ["40100a", "40100d"]),
+                          ({"config": {"valid_addr_range": {"min": "0x1", "max": "0x2"}}, "pattern": [{"$not": ["ret"]}, {"$not": ["ret"]}]}, ["401000"]),
+                          ({"pattern": [{"$not": ["movabs"]}]}, ["40100a", "40100d"])):
+            got = _j.run_pipeline(doc, lw, all_matches=True, only_addr=True)
+            run.count("traces_validated_against_impl")
+            if got != want:
+                run.failure("genuine_address/CONTINUATION-LINE", f"rule {doc} on a listing with a wrapped instruction: reported {got}, expected {want} (401007 is a byte-continuation line, not an instruction)", {"kind": "sequence", "items": [], "seq": []})
     if prop == "C07":
         # the reported text must be the engine's whole match (group 0) and the reported address its prefix: the
         # forwarding harness of C12 (engine stubbed) — a rule with capture groups must not change what is reported
